@@ -171,6 +171,31 @@ CHECKS["C07"] = dict(
     note=TB + "Trusted: harness/resptok.py (cross-checked against Spec/RespTok.v each run); Python's email package as oracle for "
          "header values. Leniencies: 8-bit octets in strings, empty resp-text after a code, three spacing deviations, ']' in "
          "keywords. Exception arm stated for NUL-free texts.", ref="6/C07")
+CHECKS["C11"] = dict(
+    technique="Coq proof over an effect-trace model of the commit protocol and the restart reconciliation (every subset of a command's file effects) + exhaustive crash-point sweep of the real server (kill before every primitive durable effect of representative histories)",
+    text="PARTIAL. Theorems: if the process dies before a command's commit after ANY subset of the known message files has been "
+         "removed and any files have been added under unknown numbers, the restart never gives a known UID to another message "
+         "and never lowers UIDNEXT; an acknowledged APPEND is consistent, present under the old UIDNEXT and survives a restart; "
+         "the variant with a delivery made while the server is down is refuted (recorded finding). On the implementation the "
+         "server is killed (os._exit in a child) before each primitive durable effect (SQL statement/commit, file add/remove, "
+         ".mh_sequences rewrite, pack, utime, rename, symlink, rmtree) of histories covering first start-up + migrations, "
+         "APPEND/STORE/EXPUNGE/CLOSE, COPY/MOVE, packing, namespace commands; restarted on the same directory like "
+         "IMAPUserServer.run does; every mailbox selected and fetched; the ledger of acknowledged results compared.",
+    note=TB + "Assumed: SQLite's commit is atomic and durable, file operations are atomic (no torn writes / fsync reordering); a killed "
+         "process loses memory and the open transaction only. The Coq model covers one mailbox's files + row and the 'files first, "
+         "commit last' order, which the check re-observes on every run.", ref="6/C11")
+CHECKS["C17"] = dict(
+    technique="Coq refinement + invariant proofs (table of mailbox rows vs reference tree, over all histories; wildcard matcher = RFC 3501 relation) + differential correspondence of histories and of the matcher, evaluated inside Coq",
+    text="Theorems: the matcher built by _mbox_pattern_to_re is RFC 3501's */% relation for all patterns and names, INBOX in any "
+         "spelling; for every history of CREATE/DELETE/RENAME/SUBSCRIBE/UNSUBSCRIBE/APPEND/SELECT/restart the model's table has no "
+         "duplicate names and stands for the reference tree with the reference results; LIST/LSUB answer exactly the matching "
+         "existing/subscribed names once; \\HasChildren iff an existing mailbox lies below and \\Noselect iff placeholder; RENAME "
+         "moves the subtree with every record intact; INBOX cannot be deleted; a refused command changes nothing; a deleted leaf "
+         "is gone. Tied by running generated histories (restarts, 55-pattern grammar x LIST/LSUB, references, LIST-EXTENDED options) "
+         "on the real objects and comparing results, LIST answers, the mailboxes table, the directories and the messages.",
+    note=TB + "Modelled not verified: Python re for the three constructs; SQLite and POSIX directory operations as atomic; disk = table "
+         "measured after every command; parser normalisation (C08/C09); \\Marked/\\Unmarked projected away; guard name_ok (the two "
+         "recorded findings); commands atomic (C10).", ref="6/C17")
 NOT_YET = {}
 
 props = [json.loads(l) for l in (V / "properties.jsonl").read_text().splitlines() if l.strip()]
